@@ -56,6 +56,7 @@ func ParentMain(args []string) int {
 	tierF := fs.String("tier", "", "")
 	replay := fs.String("replay", "", "")
 	root := fs.String("root", "/verif", "")
+	outRoot := fs.String("out", "", "where evidence/ and replays/ are written (default: root)")
 	verbose := fs.Bool("v", false, "")
 	if err := fs.Parse(args); err != nil {
 		return 2
@@ -93,7 +94,10 @@ func ParentMain(args []string) int {
 	if *replay != "" {
 		return r.replay(*replay)
 	}
-	return r.run(*root)
+	if *outRoot == "" {
+		*outRoot = *root
+	}
+	return r.run(*outRoot)
 }
 
 func (r *runner) needRace() bool {
@@ -426,6 +430,13 @@ func (r *runner) runBatch(bi int, b batch) *batchOutcome {
 			o.crashes = append(o.crashes, Violation{Prop: r.p.ID, Phase: b.name, Tier: r.tier, Seed: r.seed, Idx: last,
 				Kind: kind, Msg: fmt.Sprintf("child process died (exit %d) while running this case; reproduced alone", code),
 				Detail: map[string]any{"stderr_head": firstLines(stderrText, 60), "stderr_alone": firstLines(ctext, 60)}})
+		} else if genqlFatal(stderrText) {
+			// a schedule-dependent process death (concurrent map access, a panic in
+			// a library goroutine) need not reproduce when the case runs alone; the
+			// runtime's own report with library frames is the witness
+			o.crashes = append(o.crashes, Violation{Prop: r.p.ID, Phase: b.name, Tier: r.tier, Seed: r.seed, Idx: last,
+				Kind: "crash-unreproduced", Msg: fmt.Sprintf("child process died (exit %d) with a Go runtime fatal error / panic in library code; it did not reproduce when the case was re-run alone (schedule-dependent): %s", code, firstLines(stderrText, 3)),
+				Detail: map[string]any{"stderr_head": firstLines(stderrText, 80), "batch_lo": b.lo, "batch_hi": b.hi}})
 		} else {
 			o.inconcl = append(o.inconcl, fmt.Sprintf("child %s died (exit %d) at case %d but the case does not reproduce alone: %s", tag, code, last, firstLines(stderrText, 20)))
 		}
@@ -433,6 +444,28 @@ func (r *runner) runBatch(bi int, b batch) *batchOutcome {
 	}
 	o.inconcl = append(o.inconcl, fmt.Sprintf("batch %s [%d,%d) abandoned after repeated child deaths", b.name, b.lo, b.hi))
 	return o
+}
+
+// genqlFatal reports whether a dead child's stderr is a Go runtime fatal error
+// or goroutine panic whose first stack contains frames of the library.
+func genqlFatal(stderr string) bool {
+	i := strings.Index(stderr, "fatal error:")
+	if j := strings.Index(stderr, "panic:"); j >= 0 && (i < 0 || j < i) {
+		i = j
+	}
+	if i < 0 {
+		return false
+	}
+	rest := stderr[i:]
+	// the first goroutine trace ends at the first blank line after "goroutine "
+	if g := strings.Index(rest, "goroutine "); g >= 0 {
+		end := strings.Index(rest[g:], "\n\n")
+		if end < 0 {
+			end = len(rest) - g
+		}
+		return strings.Contains(rest[g:g+end], "github.com/vedadiyan/genql")
+	}
+	return false
 }
 
 func (r *runner) confirm(b batch, idx int, tag string) (bool, string) {
